@@ -19,8 +19,8 @@ LEVEL = "exploration"
 RULE = ("cases = every table of 1..K rows (K=2 quick, 3 thorough) over 36 row kinds (good; surrounding blanks; embedded comma/semicolon/tab; "
         "embedded newline; doubled quote; Unicode; Unicode line-separator characters inside a cell; short by one and by two cells; long; blank line; all-empty cells; bad date (out-of-range, 2-digit year, 3-digit month, underscore, sign, unpadded, other format); empty description; "
         "amount cells abc, empty, 0, 0.00, -0, nan, inf, -Infinity, (12.50), $1,234.50, 1.234,50, EUR 7, 1.234, 12,500, -45.10), each run under "
-        "7 layouts (skip column, location, extra field mid/last, description template with capture last, '%d %b %y' dates) x 4 delimiters (comma, ';', "
-        "tab, regex:) x header/no header x decimal '.'/',' x sign {amount}/{-amount}/{+amount}/negate_amount override. non-trivial = table with "
+        "7 layouts (skip column, location, extra field mid/last, description template with capture last, '%d %b %y' dates) x 5 delimiters (comma, ';', "
+        "tab, regex, regex with an optional last group) x header/no header x decimal '.'/',' x sign {amount}/{-amount}/{+amount}/negate_amount override. non-trivial = table with "
         ">=1 row that must be skipped and >=1 that must be kept under some configuration; tables distinct by construction")
 ASSUMPTIONS = ["expected transactions are derived from the cell table by an independent Decimal-based reader following the property statement",
                "not judged: location when no location column is mapped or the cell is empty; ambiguous numerals (1e3, 1_0, +5); dates followed by trailing text; "
@@ -57,7 +57,7 @@ LAYOUTS = [
     {"name": "L5", "cols": ["date", "description", "amount", "card"], "datefmt": "%m/%d/%Y"},
     {"name": "L6", "cols": ["date", "amount", "type", "merchant"], "datefmt": "%m/%d/%Y", "template": "{merchant} ({type})"},
 ]
-DELIMS = ["comma", "semicolon", "tab", "regex"]
+DELIMS = ["comma", "semicolon", "tab", "regex", "regex-opt"]
 SIGNS = ["keep", "negate", "abs", "override"]
 DECIMALS = [".", ","]
 
@@ -143,6 +143,8 @@ def parse_real(rows_cells, L, delim, header, decimal, sign, bom=False):
         src["delimiter"] = "tab"
     elif delim == "regex":
         src["delimiter"] = T.regex_delimiter(len(L["cols"]))
+    elif delim == "regex-opt":
+        src["delimiter"] = T.regex_delimiter_opt(len(L["cols"]))
     if sign == "override":
         src["negate_amount"] = True
     resolved = resolve_source_format(src)
@@ -180,8 +182,12 @@ def check_case(case):
         ref = layout_ref(L)
         rows = [cells_for(KINDS[k], L) for k in case]
         for delim in DELIMS:
-            if delim == "regex" and any((r is not None and (not T.representable(r, "regex") or len(r) > len(L["cols"]))) for r in rows):
+            if delim.startswith("regex") and any((r is not None and (not T.representable(r, "regex") or len(r) > len(L["cols"]))) for r in rows):
                 continue
+            rows_exp = rows
+            if delim == "regex-opt":
+                # the optional last group is absent on a line that is one cell short: that cell reads as empty
+                rows_exp = [(r + [""]) if (r is not None and len(r) == len(L["cols"]) - 1) else r for r in rows]
             for header in (True, False):
                 for decimal in DECIMALS:
                     for sign in SIGNS:
@@ -193,7 +199,7 @@ def check_case(case):
                             viol.append({"kind": "parser-raises", "detail": {"config": cfg, "exc": f"{type(e).__name__}: {e}"}})
                             continue
                         refsign = "negate" if sign == "override" else sign
-                        exp = [T.expected_txn(r, ref, decimal, refsign, "SrcA") for r in rows]
+                        exp = [T.expected_txn(r, ref, decimal, refsign, "SrcA") for r in rows_exp]
                         exp = [e for e in exp if e is not None]
                         if exp:
                             kept_any = True
